@@ -53,14 +53,16 @@ fn stub_random_state_new() -> std::collections::hash_map::RandomState {
 #[kani::stub(alloc::fmt::format, stub_format)]
 #[kani::stub(<crate::exid::ExId as std::fmt::Display>::fmt, stub_exid_fmt)]
 fn idconv_exid_to_opid_total() {
+    let which: u8 = kani::any();
+    kani::assume(which < 3);
+    exid_to_opid_body(which, kani::any(), kani::any());
+}
+
+fn exid_to_opid_body(which: u8, ctr: u64, hint: usize) {
     let mut doc = crate::Automerge::new();
     doc.ops.actors.push(crate::ActorId::from(&[0x33u8][..]));
     doc.ops.actors.push(crate::ActorId::from(&[0x55u8][..]));
-    let which: u8 = kani::any();
-    kani::assume(which < 3);
     let actor = crate::ActorId::from(&[[0x33u8, 0x55, 0x44][which as usize]][..]);
-    let ctr: u64 = kani::any();
-    let hint: usize = kani::any();
     let id = crate::ObjId::Id(ctr, actor, hint);
     let r = doc.exid_to_opid(&id);
     match &r {
@@ -82,6 +84,19 @@ fn idconv_exid_to_opid_total() {
     std::mem::forget(doc);
 }
 
+/// Native replay grid for idconv_exid_to_opid_total (used only when CBMC's trace of this harness is
+/// too large for Kani to emit a playback test): the same body over boundary inputs.
+#[test]
+fn replay_grid_idconv_exid_to_opid() {
+    for which in 0..3u8 {
+        for ctr in [0u64, 1, u32::MAX as u64, 1 << 32, (1 << 32) + 1, u64::MAX] {
+            for hint in [0usize, 1, 2, 3, usize::MAX] {
+                exid_to_opid_body(which, ctr, hint);
+            }
+        }
+    }
+}
+
 /// op_cursor_to_opid (behind get_cursor_position) never panics, whatever counter the decoded cursor carries.
 #[kani::proof]
 #[kani::unwind(18)]
@@ -89,11 +104,13 @@ fn idconv_exid_to_opid_total() {
 #[kani::stub(std::collections::hash_map::RandomState::new, stub_random_state_new)]
 #[kani::stub(alloc::fmt::format, stub_format)]
 fn idconv_op_cursor_to_opid_total() {
+    op_cursor_to_opid_body(kani::any(), kani::any());
+}
+
+fn op_cursor_to_opid_body(ctr: u64, before: bool) {
     let mut doc = crate::Automerge::new();
     let actor = crate::ActorId::from(&[0x33u8][..]);
     doc.ops.actors.push(actor.clone());
-    let ctr: u64 = kani::any();
-    let before: bool = kani::any();
     let c = crate::cursor::OpCursor {
         ctr,
         actor,
@@ -113,4 +130,13 @@ fn idconv_op_cursor_to_opid_total() {
     std::mem::forget(r);
     std::mem::forget(c);
     std::mem::forget(doc);
+}
+
+/// Native replay grid for idconv_op_cursor_to_opid_total (see replay_grid_idconv_exid_to_opid).
+#[test]
+fn replay_grid_idconv_op_cursor_to_opid() {
+    for ctr in [0u64, 1, u32::MAX as u64, 1 << 32, (1 << 32) + 1, u64::MAX] {
+        op_cursor_to_opid_body(ctr, false);
+        op_cursor_to_opid_body(ctr, true);
+    }
 }
